@@ -88,3 +88,52 @@ def single_assign_env(stmts, names=None):
             cnt[k] = cnt.get(k, 0) + 1
             val[k] = st.value
     return {k: v for k, v in val.items() if cnt[k] == 1 and (names is None or k in names)}
+
+
+def own_scope(fnode):
+    """Nodes of the function's own scope: nested function / lambda / class bodies are other scopes and are skipped."""
+    stack = list(ast.iter_child_nodes(fnode))
+    while stack:
+        n = stack.pop()
+        yield n
+        if isinstance(n, (ast.FunctionDef, ast.AsyncFunctionDef, ast.Lambda, ast.ClassDef)):
+            continue
+        stack.extend(ast.iter_child_nodes(n))
+
+
+def expand(fnode, expr, max_depth=8):
+    """Copy of `expr` in which every local that the function binds exactly once (plain `name = value`, not a parameter,
+    not inside a loop that could rebind it differently per iteration relative to the use) is replaced by its value,
+    recursively.  Gives one representative for code that differs only in which sub-expressions are named."""
+    import copy
+
+    params = {a.arg for a in fnode.args.posonlyargs + fnode.args.args + fnode.args.kwonlyargs}
+    if fnode.args.vararg:
+        params.add(fnode.args.vararg.arg)
+    if fnode.args.kwarg:
+        params.add(fnode.args.kwarg.arg)
+    stores = {}
+    for n in own_scope(fnode):
+        if isinstance(n, ast.Name) and isinstance(n.ctx, (ast.Store, ast.Del)):
+            stores[n.id] = stores.get(n.id, 0) + 1
+    for n in ast.walk(fnode):
+        if isinstance(n, (ast.Global, ast.Nonlocal)):
+            for x in n.names:
+                stores[x] = stores.get(x, 0) + 2
+    single = {}
+    for n in own_scope(fnode):
+        if isinstance(n, ast.Assign) and len(n.targets) == 1 and isinstance(n.targets[0], ast.Name):
+            t = n.targets[0].id
+            if stores.get(t) == 1 and t not in params:
+                single[t] = n.value
+
+    class Sub(ast.NodeTransformer):
+        def __init__(self, depth, seen):
+            self.depth, self.seen = depth, seen
+
+        def visit_Name(self, n):
+            if isinstance(n.ctx, ast.Load) and n.id in single and n.id not in self.seen and self.depth < max_depth:
+                return Sub(self.depth + 1, self.seen | {n.id}).visit(copy.deepcopy(single[n.id]))
+            return n
+
+    return Sub(0, frozenset()).visit(copy.deepcopy(expr))
